@@ -36,6 +36,13 @@ let run_op (op : string) (args : Sx.t list) : opres =
     { model = o; spec = o; inputs_valid = valid_b c; note = ""; unsupported = "" }
   | "num", [a; l] -> ax_op (num_model (z a)) (num_spec (z a)) l
   | "flatten", [a; l] -> ax_op (flatten_model (z a)) (flatten_spec (z a)) l
+  | "combinations", [n; r; a; l] ->
+    ax_op (comb_model (z n) (bool_of_sx r) (z a)) (comb_spec (z n) (bool_of_sx r) (z a)) l
+  | "fillna", [l; v] ->
+    let vc = content_of_sx v in
+    let r = ax_op (fillna_model vc) (fun t vs -> match to_list vc with Ok v0s -> fillna_spec v0s t vs | Err e -> Err e) l in
+    { r with inputs_valid = r.inputs_valid && valid_b vc;
+             unsupported = (if has_union (type_of vc) then "union" else r.unsupported) }
   | "localindex", [a; l] -> ax_op (localindex_model (z a)) (localindex_spec (z a)) l
   | "rpad", [tg; a; l] -> ax_op (rpad_model (z tg) (z a)) (rpad_spec (z tg) (z a)) l
   | "rpadclip", [tg; a; l] -> ax_op (rpadclip_model (z tg) (z a)) (rpadclip_spec (z tg) (z a)) l
